@@ -320,8 +320,8 @@ pub fn c08_run(ctx: &Ctx) -> i32 {
     let out = run_sharded(ctx, "C08", cases, || raw_text(C08_FAMILIES), c08_test);
     rep.absorb("E1-proptest", out);
     if ctx.tier == Tier::Thorough {
-        crate::fuzzrun::run_into(ctx, &mut rep, crate::fuzzrun::Campaign { target: "text_frontend", prop: "C08", runs_total: (ctx.scale * 2_000_000.0) as u64, max_len: 2048, seeds: crate::fuzzrun::text_seeds(), dict: true });
-        crate::fuzzrun::run_into(ctx, &mut rep, crate::fuzzrun::raw_campaign("C08", (ctx.scale * 100_000.0) as u64));
+        crate::fuzzrun::run_into(ctx, &mut rep, crate::fuzzrun::Campaign { target: "text_frontend", prop: "C08", runs_total: (ctx.scale * 20_000_000.0) as u64, max_len: 2048, seeds: crate::fuzzrun::text_seeds(), dict: true });
+        crate::fuzzrun::run_into(ctx, &mut rep, crate::fuzzrun::raw_campaign("C08", (ctx.scale * 500_000.0) as u64));
     }
     quota_check(&mut rep, &["ref:lexically-valid", "ref:lex-error:malformed attribute", "ref:lex-error:reserved word after dollar", "ref:lex-error:unknown character", "text:has-multibyte"]);
     rep.finish()
@@ -473,8 +473,8 @@ pub fn c09_run(ctx: &Ctx) -> i32 {
     let out = run_sharded(ctx, "C09", cases, || raw_text(C09_FAMILIES), c09_test);
     rep.absorb("E1-proptest", out);
     if ctx.tier == Tier::Thorough {
-        crate::fuzzrun::run_into(ctx, &mut rep, crate::fuzzrun::Campaign { target: "text_frontend", prop: "C09", runs_total: (ctx.scale * 2_000_000.0) as u64, max_len: 2048, seeds: crate::fuzzrun::text_seeds(), dict: true });
-        crate::fuzzrun::run_into(ctx, &mut rep, crate::fuzzrun::raw_campaign("C09", (ctx.scale * 100_000.0) as u64));
+        crate::fuzzrun::run_into(ctx, &mut rep, crate::fuzzrun::Campaign { target: "text_frontend", prop: "C09", runs_total: (ctx.scale * 20_000_000.0) as u64, max_len: 2048, seeds: crate::fuzzrun::text_seeds(), dict: true });
+        crate::fuzzrun::run_into(ctx, &mut rep, crate::fuzzrun::raw_campaign("C09", (ctx.scale * 500_000.0) as u64));
     }
     quota_check(&mut rep, &["ref:accept", "ref:bad-token", "ref:unexpected-eof"]);
     rep.finish()
@@ -920,8 +920,8 @@ pub fn c10_run(ctx: &Ctx) -> i32 {
     let out = run_sharded(ctx, "C10", cases, raw_c10, c10_test);
     rep.absorb("E1-proptest", out);
     if ctx.tier == Tier::Thorough {
-        crate::fuzzrun::run_into(ctx, &mut rep, crate::fuzzrun::Campaign { target: "text_frontend", prop: "C10", runs_total: (ctx.scale * 2_000_000.0) as u64, max_len: 2048, seeds: crate::fuzzrun::text_seeds(), dict: true });
-        crate::fuzzrun::run_into(ctx, &mut rep, crate::fuzzrun::raw_campaign("C10", (ctx.scale * 100_000.0) as u64));
+        crate::fuzzrun::run_into(ctx, &mut rep, crate::fuzzrun::Campaign { target: "text_frontend", prop: "C10", runs_total: (ctx.scale * 20_000_000.0) as u64, max_len: 2048, seeds: crate::fuzzrun::text_seeds(), dict: true });
+        crate::fuzzrun::run_into(ctx, &mut rep, crate::fuzzrun::raw_campaign("C10", (ctx.scale * 500_000.0) as u64));
     }
     quota_check(
         &mut rep,
@@ -1154,8 +1154,8 @@ pub fn c16_run(ctx: &Ctx) -> i32 {
     let out = run_sharded(ctx, "C16", cases, raw_c16, c16_test);
     rep.absorb("E1-proptest", out);
     if ctx.tier == Tier::Thorough {
-        crate::fuzzrun::run_into(ctx, &mut rep, crate::fuzzrun::Campaign { target: "text_frontend", prop: "C16", runs_total: (ctx.scale * 2_000_000.0) as u64, max_len: 2048, seeds: crate::fuzzrun::text_seeds(), dict: true });
-        crate::fuzzrun::run_into(ctx, &mut rep, crate::fuzzrun::raw_campaign("C16", (ctx.scale * 100_000.0) as u64));
+        crate::fuzzrun::run_into(ctx, &mut rep, crate::fuzzrun::Campaign { target: "text_frontend", prop: "C16", runs_total: (ctx.scale * 20_000_000.0) as u64, max_len: 2048, seeds: crate::fuzzrun::text_seeds(), dict: true });
+        crate::fuzzrun::run_into(ctx, &mut rep, crate::fuzzrun::raw_campaign("C16", (ctx.scale * 500_000.0) as u64));
     }
     quota_check(&mut rep, &["outcome:ok", "outcome:lex-error", "outcome:parse-error", "outcome:validation-error", "outcome:table-conflict"]);
     rep.finish()
